@@ -161,7 +161,6 @@ package server
 //@   loop 0
 //@     modifies received, c.isBeingHandled, connReads, connWrites, asmCalls, lastAsmOut, lastReadN, lastReadBuf, errorCbs, faults
 //@     invariant[C15] asmCalls == connWrites
-//@     invariant len(received) == 300
 
 //@ func (*Server).serve$3(ctx context.Context, conn *connection)
 //@   requires s != nil && conn != nil && c != nil && ctx != nil && conn.conn != nil && conn.assembler != nil && conn.onErrorFunc != nil && asmCalls == connWrites && muState == 0
